@@ -58,7 +58,8 @@ class C14(Prop):
     model_targets = ['States/Oracle.vo', 'AgentCause/Model.vo']
     translators = ['states']
     header = ('From RP Require Import Gen.StatesTables States.Model States.Inst States.Oracle AgentCause.Model.')
-    clauses = ['progression', 'final_state_consistent', 'unknown_ignored__or__cause_to_state']
+    clauses = ['progression', 'final_state_consistent', 'unknown_ignored__or__cause_to_state',
+               'no_unexpected_exception']
     corr_name = ('States.Model(p_run/p_progress) vs PilotManager._update_pilot/_pilot_state_progress/Pilot._update; '
                  'AgentCause.Model vs Agent_0._check_lifetime/_ctrl_cancel_pilots/stop/finalize')
     rule = ('every (current,target) pair of _pilot_state_progress (exhaustive); random notification sequences over '
@@ -94,6 +95,16 @@ class C14(Prop):
                 if rng.random() < 0.15:
                     ns.append([u, st])
             yield {'kind': 'run', 'pilots': pilots, 'notes': ns}
+        # two notifications for one pilot handled by two threads (state subscriber and control channel both end
+        # in _update_pilot): thread A is held after its k-th line inside the update code, B runs, A continues
+        starts = ['PMGR_LAUNCHING_PENDING', 'PMGR_LAUNCHING', 'PMGR_ACTIVE_PENDING', 'PMGR_ACTIVE']
+        combos = [(s0, a, b) for s0 in starts for a in ('PMGR_ACTIVE', 'DONE', 'PMGR_ACTIVE_PENDING')
+                  for b in ('CANCELED', 'FAILED', 'DONE', 'PMGR_ACTIVE')]
+        races = [(c, k) for c in combos for k in range(1, 46)]
+        if tier == 'quick':
+            races = rng.sample(races, 160)
+        for (s0, a, b), k in races:
+            yield {'kind': 'race', 'pilots': [[1, s0]], 'a': [1, a], 'b': [1, b], 'k': k}
         import itertools
         evs = [['lifetime', False, True], ['lifetime', True, False], ['lifetime', True, True],
                ['cancel', True], ['cancel', False], ['terminate'],
@@ -165,6 +176,17 @@ class C14(Prop):
                     errs.append(type(e).__name__)
             return {'cbs': seen, 'pcbs': pseen, 'errs': errs,
                     'states': [[u, pm._pilots['pilot.%04d' % u].state] for u, _ in case['pilots']]}
+        if case['kind'] == 'race':
+            from . import interleave as IL
+            from radical.pilot.pilot import Pilot
+            from radical.pilot.pilot_manager import PilotManager
+            pm, seen, pseen, adv = self._mk(case['pilots'])
+            codes = IL.code_of(PilotManager._update_pilot, Pilot._update, rps._pilot_state_progress)
+            mk = lambda n: (lambda: pm._update_pilot({'uid': 'pilot.%04d' % n[0], 'state': n[1], 'type': 'pilot'}))
+            r = IL.run_pair(mk(case['a']), mk(case['b']), codes, case['k'], block_s=0.05)
+            return {'cbs': seen, 'pcbs': pseen, 'a_exc': r['a_exc'], 'b_exc': r['b_exc'], 'held': r['held'],
+                    'b_blocked': r['b_blocked'],
+                    'states': [[u, pm._pilots['pilot.%04d' % u].state] for u, _ in case['pilots']]}
         # cause
         from radical.pilot.agent.agent_0 import Agent_0
         import radical.pilot.utils as rpu
@@ -226,17 +248,30 @@ class C14(Prop):
                 o = '(inl %s)' % errname(obs['exc'])
             else:
                 o = '(inr (%s, %s))' % (P(obs['new']), L.lst([P(s) for s in obs['passed']]))
-            return '(c14_progress_row %s %s %s)' % (P(case['cur']), P(case['tgt']), o)
+            return '(c14_progress_row %s %s %s ++ [true])' % (P(case['cur']), P(case['tgt']), o)
         if case['kind'] == 'run':
             # both callback kinds must see the same sequence
             same = obs['cbs'] == obs['pcbs']
             o = '(%s, %s, %s)' % (tab(obs['states']), tab(obs['cbs']), L.lst([errname(e) for e in obs['errs']]))
             row = '(c14_run_row %s %s %s)' % (tab(case['pilots']), tab(case['notes']), o)
+            # the only exception the update path may raise is the ValueError for a final state contradicting DONE
+            row = '(%s ++ [%s])' % (row, L.boolean(all(e == 'ValueError' for e in obs['errs'])))
+            return row if same else '(false :: tl %s)' % row
+        if case['kind'] == 'race':
+            if not obs['held']:
+                return '[true; true; true; true; true]'          # the update code has fewer than k lines
+            same = obs['cbs'] == obs['pcbs']
+            ea = [obs['a_exc']] if obs['a_exc'] else []
+            eb = [obs['b_exc']] if obs['b_exc'] else []
+            mk = lambda errs: '(%s, %s, %s)' % (tab(obs['states']), tab(obs['cbs']), L.lst([errname(e) for e in errs]))
+            row = '(c14_race_row %s %s %s %s %s)' % (tab(case['pilots']), L.pair(L.Z(case['a'][0]), P(case['a'][1])),
+                                                  L.pair(L.Z(case['b'][0]), P(case['b'][1])), mk(ea + eb), mk(eb + ea))
+            row = '(%s ++ [%s])' % (row, L.boolean(all(e == 'ValueError' for e in ea + eb)))
             return row if same else '(false :: tl %s)' % row
         sig = obs['signal']
         ok = sig in ('DONE', 'CANCELED', 'FAILED') and obs['advanced'] == [sig] and obs['bootstrap_ok']
         f = 'F_' + sig if sig in ('DONE', 'CANCELED', 'FAILED') else 'F_FAILED'
-        row = '(c14_cause_row %s %s)' % (L.lst([ev(e) for e in case['events']]), f)
+        row = '(c14_cause_row %s %s ++ [true])' % (L.lst([ev(e) for e in case['events']]), f)
         return row if ok else '(false :: tl %s)' % row
 
     def model_show(self, case):
@@ -244,6 +279,9 @@ class C14(Prop):
             return 'p_progress %s %s' % (P(case['cur']), P(case['tgt']))
         if case['kind'] == 'run':
             return 'p_run %s %s' % (tab(case['pilots']), tab(case['notes']))
+        if case['kind'] == 'race':
+            return '(p_run %s %s, p_run %s %s)' % (tab(case['pilots']), tab([case['a'], case['b']]),
+                                                   tab(case['pilots']), tab([case['b'], case['a']]))
         return '(agent_final %s, spec_final %s)' % ((L.lst([ev(e) for e in case['events']]),) * 2)
 
     def nontrivial(self, case, obs):
@@ -251,6 +289,8 @@ class C14(Prop):
             return case['cur'] != case['tgt']
         if case['kind'] == 'run':
             return len(case['notes']) >= 3 and any(s in ('DONE', 'FAILED', 'CANCELED') for _, s in case['notes'])
+        if case['kind'] == 'race':
+            return bool(obs['held'])
         return any(e[0] == 'terminate' or (e[0] == 'cancel' and e[1]) or (e[0] == 'lifetime' and e[1] and e[2])
                    for e in case['events'])
 
@@ -259,6 +299,8 @@ class C14(Prop):
             return '%s:Agent_0.finalize' % clause
         if case['kind'] == 'run':
             return '%s:PilotManager._update_pilot' % clause
+        if case['kind'] == 'race':
+            return '%s:PilotManager._update_pilot:two-threads' % clause
         return '%s:progress:%s->%s' % (clause, case['cur'], case['tgt'])
 
     def shrink(self, case):
